@@ -265,6 +265,45 @@ pub fn rand_garbage(rng: &mut Rng, n: usize) -> Vec<u8> {
     }
 }
 
+/// offsets (relative to the start of a garbage run) around which byte-count dependent state could flip: the 64 KiB
+/// boundary, the maximal storage message size 16 + 65535 = 65551 and its neighbours, 128 KiB
+pub const SCALE_BOUNDARIES: [usize; 8] = [65535, 65536, 65550, 65551, 65552, 65553, 131071, 131072];
+/// the garbage-run lengths of the scale classes (longer than any message; the token model of Framing.tla has no such class)
+pub const SCALE_LENGTHS: [usize; 5] = [65551, 65552, 65553, 131072, 200000];
+
+/// long garbage run of exactly n bytes. style 0: random bytes; 1: random bytes with partial frame markers ("D", "DL", "DLT",
+/// "DLS", "DLT\0", "DLS\x02" - never a complete marker) ending at / straddling every scale boundary and at the very end of
+/// the run (directly in front of the next message); 2: cyclic "DLTS\xaa\0"; 3: cyclic "DLS" / "DLT" fragments.
+/// (Complete markers that arise by accident are removed by `sanitize`.)
+pub fn long_garbage(rng: &mut Rng, n: usize, style: u64) -> Vec<u8> {
+    let frags: [&[u8]; 7] = [b"D", b"DL", b"DLT", b"DLS", b"DLT\0", b"DLS\x02", b"DLTDLS"];
+    match style % 4 {
+        0 => rng.bytes(n),
+        1 => {
+            let mut g = rng.bytes(n);
+            let mut put = |g: &mut Vec<u8>, end: usize, f: &[u8]| {
+                if end <= g.len() && end >= f.len() {
+                    g[end - f.len()..end].copy_from_slice(f);
+                }
+            };
+            for b in SCALE_BOUNDARIES {
+                let f = *rng.pick(&frags);
+                // fragment ends exactly at the boundary, or straddles it by one byte
+                let end = if rng.chance(1, 2) { b } else { b + 1 };
+                put(&mut g, end, f);
+            }
+            let f = *rng.pick(&frags[..4]);
+            put(&mut g, n, f);
+            g
+        }
+        2 => (0..n).map(|i| b"DLTS\xaa\0"[i % 6]).collect(),
+        _ => {
+            let pat: &[u8] = *rng.pick(&[&b"DLS"[..], &b"DLT"[..], &b"DLTDLS"[..], &b"DL"[..]]);
+            (0..n).map(|i| pat[i % pat.len()]).collect()
+        }
+    }
+}
+
 fn is_marker(b: &[u8], i: usize) -> bool {
     i + 4 <= b.len() && (b[i..i + 4] == STO || b[i..i + 4] == SER)
 }
